@@ -30,7 +30,7 @@ RULE = ('seeded generator over the 9 methods of the test interface c14svc (strin
         'values, empty/long/nested lists, absent fields, positional and keyword arguments; handler scripts: return value, '
         'return None (missing result), each declared exception, TApplicationException of every type, unexpected exception; '
         'reply manglings: unversioned header, bad version, truncated payload, negative/zero size, foreign reply name, unknown '
-        'field, wrong-typed success, trailing bytes, other seqid; every reply is pushed through 3 (quick) / 5 (thorough) '
+        'field, wrong-typed success, duplicated success, empty EXCEPTION struct, trailing bytes, other seqid; every reply is pushed through 3 (quick) / 5 (thorough) '
         'chunkings out of: whole, 1-byte reads, splits inside the length prefix, random cuts, cut at the frame end with a second '
         'frame behind it, 0-byte read after k bytes / script end; both socket classes; partial send() on the write side. '
         'non-trivial = the call reached the wire and a reply was read; distinct by canonical JSON of (case, observation)')
@@ -44,14 +44,15 @@ ASSUMPTIONS = ['struct.pack/unpack semantics of CPython as transcribed in Model/
                'a recv on an exhausted script returns 0 bytes (peer closed); a real socket would block until the deadline (C08/C12)']
 
 MANIFEST = {
-    'text': ('Theorems C14_roundtrip (the strict binary decoder inverts the encoder for every nested value: bool, i16, i32, i64, '
-             'string/binary, lists, structs), C14_frame (length prefix exact), C14_outcome / C14_outcome_sound / C14_never_exception_value '
-             '(decision ladder: success -> value, void -> None, declared exception / EXCEPTION message -> ScalesError carrying exactly that '
-             'exception, missing result -> error; a returned value is always the success field), C14_chunking / C14_chunking_eof / '
-             'C14_outcome_chunking_independent (every split of the reply stream into non-empty reads gives the same bytes, consumes '
-             'exactly 4+sz, and the same caller-visible outcome; a 0-byte read before that is EOF) hold for all inputs of the Gallina '
-             'transcription; the transcription is compared with the real sink chain on ~1.5k (quick) / ~15k (thorough) generated RPCs '
-             'per run, each under several chunkings, with the Thrift library as the oracle for both directions.'),
+    'text': ('Theorems C14_roundtrip / C14_roundtrip_value (the strict binary decoder inverts the encoder for every nested value: bool, '
+             'i16, i32, i64, string/binary, lists, structs), C14_frame (length prefix exact), C14_call (the framed call decodes to the method '
+             'and the supplied arguments), C14_outcome / C14_outcome_app / C14_never_exception_value / C14_errors_raise (decision ladder: '
+             'success -> value, void -> None, declared exception / EXCEPTION message -> ScalesError carrying exactly that exception, '
+             'missing result -> error; for every payload a returned value is the success field of a non-EXCEPTION reply), C14_chunking_read / '
+             'C14_chunking / C14_chunking_eof / C14_outcome_chunking_independent (every split of the reply stream into non-empty reads gives '
+             'the same bytes, consumes exactly 4+sz, and the same caller-visible outcome; a 0-byte read before that is EOF) hold for all inputs '
+             'of the Gallina transcription; the transcription is compared with the real sink chain on ~1.5k (quick) / ~14k (thorough) generated '
+             'RPCs per run, each under 3/5 chunkings, with the Thrift library as the oracle for both directions.'),
     'note': ('Trusted: Coq kernel; Thrift library as codec oracle; the correspondence harness and its sampling; struct semantics of '
              'Model/Bytes.v. "Agrees with the Thrift library" is established by differential execution, not by proof. All theorems '
              'closed under the global context.'),
@@ -256,7 +257,7 @@ def gen_value(r, ttype, targs, depth=0, flags=None):
 
 CHUNK_KINDS = ['whole', 'ones', 'pre1', 'pre2', 'pre3', 'rand', 'rand', 'frameend', 'eof', 'eofend', 'twos']
 MANGLES = ['nonstrict', 'badversion', 'trunc', 'negsize', 'zerosize', 'rename_fire', 'rename_ping', 'rename_echo',
-           'extrafield', 'wrongtype', 'trailing', 'seqid', 'dupsuccess']
+           'extrafield', 'wrongtype', 'trailing', 'seqid', 'dupsuccess', 'appempty']
 
 
 def gen_chunkings(r, k, force=None):
@@ -601,6 +602,8 @@ def mangle(kind, payload, r):
     return frame(strict(name, bd=b'\x06\x00\x00\x00\x09' + b'\x00'))
   if kind == 'dupsuccess':
     return frame(strict(name, bd=b'\x0b\x00\x00\x00\x00\x00\x01a' + b'\x0b\x00\x00\x00\x00\x00\x02bc' + b'\x00'))
+  if kind == 'appempty':      # an EXCEPTION message whose struct carries neither message nor type
+    return frame(strict(name, mt=3, bd=b'\x00'))
   if kind == 'trailing':
     return frame(payload + b'\x01\x02\x03')
   if kind == 'seqid':
